@@ -117,6 +117,7 @@ func (ex *Exec) freshResult(c *ssa.Call) Val {
 	r := ex.env.freshVal("res_"+sanitize(c.Name()), c.Type())
 	ex.flushFacts()
 	ex.allocFact(r, c.Type())
+	ex.rely(r, c.Type())
 	return r
 }
 
@@ -179,6 +180,8 @@ func (ex *Exec) applyContract(cc *Contract, c *ssa.Call, args []Val, calleeName 
 		}
 		t := ex.clauseTerm(cl, m, pre, pre, true)
 		ex.oblige("pre", site+":"+lbl, t, c.Pos())
+		ex.obligs[len(ex.obligs)-1].Clause = cl
+		ex.obligs[len(ex.obligs)-1].Callee = calleeName
 	}
 	// frame
 	post := ex.havocAssigns(cc, m, pre)
@@ -763,7 +766,7 @@ func (ex *Exec) modSet(blocks map[*ssa.BasicBlock]bool) (map[string]bool, bool) 
 
 func (env *Env) mathCallName(name string) (string, bool) {
 	switch name {
-	case "math.Trunc", "math.Floor", "math.Ceil", "math.RoundToEven", "math.Round", "math.Abs", "math.IsNaN", "math.NaN", "math.Sqrt", "math.Inf", "math.IsInf", "math.Signbit", "math.Copysign", "math.Max", "math.Min", "math.Float64bits", "math.Float64frombits":
+	case "math.Trunc", "math.Floor", "math.Ceil", "math.RoundToEven", "math.Round", "math.Abs", "math.IsNaN", "math.NaN", "math.Sqrt", "math.Inf", "math.IsInf", "math.Signbit", "math.Copysign", "math.Max", "math.Min", "math.Float64bits", "math.Float64frombits", "math.Mod", "math.Pow", "math.Log", "math.Exp", "math.Sin", "math.Cos", "math.Atan2", "math.Hypot", "math.Cbrt", "math.Log2", "math.Log10", "math.Log1p", "math.Expm1", "math.Tan", "math.Asin", "math.Acos", "math.Atan", "math.Sinh", "math.Cosh", "math.Tanh", "math.Asinh", "math.Acosh", "math.Atanh":
 		return name, true
 	}
 	return "", false
